@@ -167,10 +167,15 @@ def miser (f : List Rat → Rat) (pw23 : Rat → Rat) : Nat → List Rat → Int
 
 /-- `Integrate_MC_Miser`: `iran = 0` at the start of every integration (fix 1d564f6); the incoming
     value of the static is an argument so that independence of it can be stated -/
-def miserTop (f : List Rat → Rat) (pw23 : Rat → Rat) (region : List Rat) (ncall : Int) (_iranStatic : Nat) (g : G) : Option (Rat × List (List Rat) × Bool) :=
+def miserTopCore (f : List Rat → Rat) (pw23 : Rat → Rat) (region : List Rat) (ncall : Int) (_iranStatic : Nat) (g : G) : Option (Rat × List (List Rat) × Bool) :=
   match miser u01 f pw23 ncall.toNat.succ region ncall 0 g with
   | some o => some (mcVolume region * o.ave, o.pts, o.knife)
   | none => none
+
+/-- `Integrate_MC_Miser` after fix 9d8dcaf: a region of zero volume returns 0 before any draw and before the
+    integrand is called (Miser's bisection would divide 0 by 0 on the degenerate axis) -/
+def miserTop (f : List Rat → Rat) (pw23 : Rat → Rat) (region : List Rat) (ncall : Int) (iranStatic : Nat) (g : G) : Option (Rat × List (List Rat) × Bool) :=
+  if mcVolume region = 0 then some (0, [], false) else miserTopCore u01 f pw23 region ncall iranStatic g
 
 /-- the unrepaired code: the static survives from the previous integration -/
 def miserTopNoReset (f : List Rat → Rat) (pw23 : Rat → Rat) (region : List Rat) (ncall : Int) (iranStatic : Nat) (g : G) : Option (Rat × List (List Rat) × Bool) :=
@@ -183,6 +188,7 @@ def miserTopNoReset (f : List Rat → Rat) (pw23 : Rat → Rat) (region : List R
     (from inside its integrand) therefore starts from 0 whatever the enclosing run has done to the static -/
 def miserTopS (f : List Rat → Rat) (pw23 : Rat → Rat) (region : List Rat) (ncall : Int) (iranStatic : Nat) (g : G) :
     Option (Rat × List (List Rat) × Bool) × Nat :=
+  if mcVolume region = 0 then (some (0, [], false), iranStatic) else
   match miser u01 f pw23 ncall.toNat.succ region ncall 0 g with
   | some o => (some (mcVolume region * o.ave, o.pts, o.knife), o.iran)
   | none => (none, iranStatic)
@@ -295,8 +301,15 @@ def vegasInitScalars (s : VegasScalars) (init : Int) (ndim : Nat) (ncall : Int) 
 /-- `xn = (kg[j] − u)·dxg + 1` -/
 def vegasXn (kg : Int) (u dxg : Rat) : Rat := ((kg : Rat) - u) * dxg + 1
 
-/-- `ia[j] = max(min(int(xn), NDMX), 1)` -/
+/-- BEFORE fix 66169b8: `ia[j] = max(min(int(xn), NDMX), 1)` (kept for the pre-fix witness `vegas_ia_overrun_witness`) -/
 def vegasIa (xn : Rat) : Nat := (max (min (truncInt xn) 50) 1).toNat
+
+/-- as coded now (fix 66169b8): `ia[j] = max(min(int(xn), nd), 1)` — clamped to the number of bins in use -/
+def vegasIaNd (xn : Rat) (nd : Nat) : Nat := (max (min (truncInt xn) (nd : Int)) 1).toNat
+
+/-- fix 9f1900c: the integrand receives a vector of exactly `ndim` coordinates (`point[j] = x[j]`, `j < ndim`),
+    not the static work vector `x` of `MXDIM = 10` entries whose tail belongs to earlier integrations -/
+def vegasPoint (x : List Rat) (ndim : Nat) : List Rat := x.take ndim
 
 /-- the arrays that survive between calls and are read by the iterations (`xi[j][i]`, `d[i][j]`,
     `di[i][j]` with the C++ index order).  `xin` is local to `Rebin` in this model (`rebinLoop`
